@@ -264,6 +264,7 @@ fn sorted_segment_probe(a: &[String]) -> tantivy::Result<bool> {
 }
 
 mod probe_bg_merge;
+mod probe_lock_race;
 mod probe_union_freqless;
 mod probe_update_merge;
 
@@ -275,6 +276,9 @@ fn main() -> tantivy::Result<()> {
         let ok = match name {
             "update_survives_uncommitted_merge" => {
                 std::panic::catch_unwind(|| matches!(probe_update_merge::run(), Ok(()))).unwrap_or(false)
+            }
+            "single_writer_under_racing_creations" => {
+                std::panic::catch_unwind(|| matches!(probe_lock_race::run(), Ok(()))).unwrap_or(false)
             }
             "topk_union_with_freqless_term" => {
                 std::panic::catch_unwind(|| matches!(probe_union_freqless::run(), Ok(()))).unwrap_or(false)
